@@ -14,12 +14,12 @@ RULE = ("seeded add/remove/re-add/step/lookup histories (5-60 ops) over a pool o
         "with rejected duplicate adds and unknown removals injected against the current state; non-trivial = a "
         "timestep ran while >=2 equal-priority systems registered at different times were live, and >=1 removal "
         "was followed by a step; distinct = sequence of (op kind, queue position, queue length)"
-        "; also: the SAME System object re-registered, systems with value-based __eq__, real Collector subclasses")
+        "; also: the SAME System object re-registered, systems with value-based __eq__, real Collector subclasses, systems whose start lies ahead, a registered system re-prioritised (attribute assigned, removed, re-added)")
 COMPONENTS = {"real": ["ECAgent.Core.SystemManager.add_system/remove_system/execute_systems/__getitem__",
                        "ECAgent.Collectors.Collector (default priority)"],
               "stub": ["System.execute / Collector.collect bodies are harness recorders"]}
 PROBES = ["tie_of_3", "readd_after_remove", "insert_head", "insert_middle", "insert_tail",
-          "negative_next_to_collector", "dup_rejected", "unknown_rejected", "extreme_priority", "same_object_reregistered", "systems_with_value_equality", "falsy_systems", "system_waiting_for_its_start"]
+          "negative_next_to_collector", "dup_rejected", "unknown_rejected", "extreme_priority", "same_object_reregistered", "systems_with_value_equality", "falsy_systems", "system_waiting_for_its_start", "reprioritised_same_object"]
 TECHNIQUE = "deterministic simulation: seeded registration/removal histories with injected rejections vs a sorted-list reference, per-timestep execution log oracle"
 LEVEL_TEXT = ("Seeded search over registration histories; after every timestep the execution order recorded from the real "
               "scheduler must equal the reference (descending priority, registration order among equals) and after every "
@@ -66,6 +66,9 @@ def generate(rng, tier):
             ops.append({"op": "step", "n": rng.choice([1, 1, 1, 2, 3])})
         else:
             ops.append({"op": "lookup", "k": rng.randrange(n)})
+    for _ in range(rng.choice([0, 0, 1, 2])):
+        ops.insert(rng.randint(0, len(ops)), {"op": "reprio", "k": rng.randrange(n), "prio": gen_prio(rng) if rng.random() < 0.5 else rng.choice([-3, -1, 0, 1, 2, 5]),
+                                              "via": rng.choice(["id", "clean_up"])})
     if rng.random() < 0.3:       # some systems only start later: registration order among equals is fixed when they register,
         for p_ in pool:          # not when they first run
             if p_["kind"] == "system" and rng.random() < 0.35:
@@ -93,6 +96,7 @@ def execute(sc, ctx):
     ref = RefSched()
     pool = sc["pool"]
     live = {}
+    prio_now = {}        # id -> priority assigned by a reprio op (the object keeps it)
     ever_removed = set()
     retired = {}
     removed_since_step = False
@@ -103,10 +107,12 @@ def execute(sc, ctx):
         return
     for op in sc["ops"]:
         kind = op["op"]
-        if kind in ("add", "remove", "lookup"):
+        if kind in ("add", "remove", "lookup", "reprio"):
             spec = dict(pool[op["k"] % len(pool)])
             spec.update({"start": int(spec.get("start", 0)) if spec.get("kind") == "system" else 0, "end": 2 ** 63 - 1, "freq": 1})
             sid = spec["id"]
+            if sid in prio_now:
+                spec["prio"] = prio_now[sid]
         if kind == "add":
             if ref.has(sid):
                 dup = dict(spec)
@@ -136,6 +142,21 @@ def execute(sc, ctx):
                     ctx.probe("extreme_priority")
                 ctx.event("add", sid, spec["prio"], pos)
                 shape.append(["add", pos, nq])
+        elif kind == "reprio":
+            # the natural way to change a registered system's priority: assign it, take the system out, put it back
+            if not ref.has(sid) or spec["kind"] != "system":
+                continue
+            obj = live[sid]
+            obj.priority = op["prio"]
+            how = op.get("via", "id")
+            ctx.expect_ok("reprio-remove", obj.clean_up) if how == "clean_up" else ctx.expect_ok("reprio-remove", sm.remove_system, sid)
+            ref.remove(sid)
+            ctx.expect_ok("reprio-add", sm.add_system, obj)
+            prio_now[sid] = op["prio"]
+            pos = ref.add(dict(spec, prio=op["prio"]))
+            ctx.probe("reprioritised_same_object")
+            ctx.event("reprio", sid, op["prio"], pos)
+            shape.append(["reprio", pos, len(ref.q)])
         elif kind == "remove":
             if ref.has(sid):
                 ctx.expect_ok("remove", sm.remove_system, sid)
